@@ -158,7 +158,6 @@ func (ex *Exec) ifaceContractCall(key string, spec *FuncSpec, c *ssa.CallCommon,
 	for k, r := range spec.Requires {
 		t := ev.evalBool(r.Expr)
 		ex.vc.oblige(fmt.Sprintf("call.%s.requires[%d]", c.Method.Name(), k+1), "", pos, ex.curReach, t, "precondition of "+key)
-		ex.vc.assume(sImp(ex.curReach, t))
 	}
 	post := pre.clone()
 	ex.curState = post
